@@ -7,11 +7,22 @@ Oracle: the four clauses checked directly on the real output (every reachable cl
 after everything it depends on; cyclic => SchemaParseError; termination under a time limit).
 Aliased element graphs: the non-object elements a dependency passes through (arrays, keyword-holding elements, anyOf/oneOf/allOf,
 not) are nodes of their own, so one such instance can be referred to from several places (what `$ref` produces) and can lie on a
-reference loop, with or without a class on it; same correspondence, same four clauses against reachability in the graph built."""
+reference loop, with or without a class on it; same correspondence, same four clauses against reachability in the graph built.
+Sibling sub-schemas: a dependency rarely sits alone under its keyword - the same graphs with class-free sub-schemas of every kind
+(`false`, `true`, typed, array, composition) put before / after / around every dependency in the same dict or list and under the
+holder's other keywords; they add no class and no edge, so the ground truth is unchanged.
+How a class comes to be: by a metaclass call, by a `class` statement in a factory with the name assigned afterwards, by a metaclass
+call under a common name renamed afterwards, and out of the parser (JSON schemas with colliding titles - the parser's `Item`,
+`Item_1` - shared sub-schemas that it merges into one class, `false` / `true` sub-schemas); the statement speaks about classes, and
+the orderer's documented assumption is only that their *names* differ."""
+import copy
 import random
+import re
 import signal
 
-from statham.schema.elements import AllOf, AnyOf, Array, Element, Not, Object, OneOf
+from statham.schema.elements import AllOf, AnyOf, Array, Element, Not, Nothing, Null, Object, OneOf, String
+from statham.schema.constants import NotPassed
+from statham.schema.parser import parse
 from statham.schema.elements.meta import ObjectClassDict, ObjectMeta
 from statham.schema.exceptions import SchemaParseError
 from statham.schema.property import Property
@@ -170,7 +181,7 @@ def _subs(x):
     return subs
 
 
-def run_orderer(roots):
+def run_orderer(roots, objs=None):
     old = signal.signal(signal.SIGALRM, _alarm)
     signal.alarm(5)
     got = []
@@ -178,6 +189,8 @@ def run_orderer(roots):
         # stepped one class at a time, the way a consumer that writes declarations as they arrive sees it
         for c in orderer(*roots):
             got.append(c.__name__)
+            if objs is not None:
+                objs.append(c)
         return {"r": "ok", "order": got}
     except SchemaParseError:
         return {"r": "unresolvable", **({"yielded_before_error": got} if got else {})}
@@ -192,12 +205,129 @@ def run_orderer(roots):
         signal.signal(signal.SIGALRM, old)
 
 
-def check_graph(drv, n, edges, positions, root_ids, out, stats, rng):
-    classes = [ObjectMeta(f"C{i}", (Object,), ObjectClassDict()) for i in range(n)]
+# ---------------------------------------------------------------------------------------------------------------------------
+# How a class comes to be. The orderer's documented assumption is that class *names* (`__name__`) are unique; nothing is promised
+# about `__qualname__`, the defining scope, or the name the class had when it was created.
+MADE = ["meta", "template", "renamed"]
+
+
+def _from_template(name):
+    class Template(Object):
+        pass
+    Template.__name__ = name            # named after creation: every such class shares one __qualname__
+    return Template
+
+
+def make_classes(n, made=None):
+    if made in (None, "meta"):
+        return [ObjectMeta(f"C{i}", (Object,), ObjectClassDict()) for i in range(n)]
+    if made == "template":
+        return [_from_template(f"C{i}") for i in range(n)]
+    if made == "renamed":               # created under a common name, renamed afterwards (what the parser does on a title clash)
+        classes = [ObjectMeta("Model", (Object,), ObjectClassDict()) for i in range(n)]
+        for i, c in enumerate(classes):
+            c.__name__ = f"C{i}"
+        return classes
+    raise ValueError(made)
+
+
+# ---------------------------------------------------------------------------------------------------------------------------
+# Sibling sub-schemas: class-free elements of every kind beside the dependencies
+SIBLING_KINDS = ["false", "true", "string", "null", "array", "composition"]
+SIBLING_WHERE = ["before", "after", "around"]
+
+
+def make_sibling(kind):
+    if kind == "false":
+        return Nothing()
+    if kind == "true":
+        return Element()
+    if kind == "string":
+        return String()
+    if kind == "null":
+        return Null()
+    if kind == "array":
+        return Array(String())
+    if kind == "composition":
+        return AnyOf(String(), Nothing())
+    raise ValueError(kind)
+
+
+def _around_dict(d, kind, where, wrap, prefix):
+    """Rebuild dict `d` in place with a sibling entry in front of and/or behind what it holds."""
+    held = list(d.items())
+    d.clear()
+    if where in ("before", "around"):
+        d[prefix + "sb"] = wrap(make_sibling(kind))
+    for k, v in held:
+        d[k] = v
+    if where in ("after", "around"):
+        d[prefix + "sa"] = wrap(make_sibling(kind))
+
+
+def _around_list(lst, kind, where):
+    if where in ("before", "around"):
+        lst.insert(0, make_sibling(kind))
+    if where in ("after", "around"):
+        lst.append(make_sibling(kind))
+
+
+def add_siblings(starts, kind, where):
+    """Put class-free sibling elements of `kind` beside everything held by every element reachable from `starts` (classes and
+    non-object elements alike): in front of / behind the entries of each dict- or list-valued keyword in use, and under the
+    element's keywords that are not in use. Values already held are never replaced, so no class and no dependency is added or lost."""
+    todo, seen, found = list(starts), set(), []
+    while todo:
+        x = todo.pop()
+        if id(x) in seen:
+            continue
+        seen.add(id(x))
+        found.append(x)
+        todo.extend(_subs(x))
+    fresh = lambda e: e                                                    # noqa: E731
+    for x in found:
+        props = getattr(x, "properties", None)
+        if isinstance(props, dict) and (props or isinstance(x, ObjectMeta)):
+            _around_dict(props, kind, where, Property, "")
+        for name, prefix in (("patternProperties", "^"), ("dependencies", "")):
+            v = getattr(x, name, None)
+            if isinstance(v, dict):
+                _around_dict(v, kind, where, fresh, prefix)
+            elif isinstance(v, NotPassed) and not isinstance(x, (AnyOf, OneOf, AllOf, Not)):
+                setattr(x, name, {prefix + "so": make_sibling(kind)})
+        for name in ("items", "elements"):
+            v = getattr(x, name, None)
+            if isinstance(v, list):
+                _around_list(v, kind, where)
+        if isinstance(x, (AnyOf, OneOf, AllOf, Not)):
+            continue
+        for name in ("items", "contains", "propertyNames"):
+            if isinstance(getattr(x, name, None), NotPassed) and not (name != "propertyNames" and isinstance(x, ObjectMeta)):
+                setattr(x, name, make_sibling(kind))
+
+
+def count_siblings(stats, siblings, made, prefix=""):
+    if siblings:
+        key = f"{prefix}siblings-{siblings[0]}-{siblings[1]}"
+        stats[key] = stats.get(key, 0) + 1
+    if made not in (None, "meta"):
+        key = f"{prefix}classes-made-{made}"
+        stats[key] = stats.get(key, 0) + 1
+
+
+def check_graph(drv, n, edges, positions, root_ids, out, stats, rng, siblings=None, made=None):
+    classes = make_classes(n, made)
     for k, ((u, v), pos) in enumerate(zip(edges, positions)):
         wire(rng, classes, u, v, pos, k)
+    if siblings:
+        add_siblings(classes, siblings[0], siblings[1])
     roots = [classes[i] for i in root_ids]
     case = {"classes": n, "edges": [[u, v, p] for (u, v), p in zip(edges, positions)], "roots": root_ids}
+    if siblings:
+        case["siblings"] = list(siblings)
+    if made not in (None, "meta"):
+        case["made"] = made
+    count_siblings(stats, siblings, made)
     real = run_orderer(roots)
     # ground truth, computed by the harness on the graph it built
     adj = {i: sorted({v for (u, v) in edges if u == i}) for i in range(n)}
@@ -324,11 +454,11 @@ def attach(W, V, position, counter, slots):
         raise ValueError(position)
 
 
-def check_aliased(drv, n, kinds, links, root_ids, out, stats):
+def check_aliased(drv, n, kinds, links, root_ids, out, stats, siblings=None, made=None):
     """Nodes 0..n-1 are classes C0.., nodes n.. are non-object elements of the given kinds; a link [s, d, position] puts node d
     below node s (a class source goes through `wire`, i.e. any of the 14 positions, possibly behind fresh elements of its own;
     a non-object source holds d directly under one of its own keywords). Roots may be classes or non-object elements."""
-    classes = [ObjectMeta(f"C{i}", (Object,), ObjectClassDict()) for i in range(n)]
+    classes = make_classes(n, made)
     nodes = classes + [make_wrapper(k) for k in kinds]
     total = len(nodes)
     slots = {i: {} for i in range(n, total)}
@@ -339,6 +469,8 @@ def check_aliased(drv, n, kinds, links, root_ids, out, stats):
             class_links.append((s, d))
         else:
             attach(nodes[s], nodes[d], pos, k, slots[s])
+    if siblings:
+        add_siblings(nodes, siblings[0], siblings[1])       # after the last link: nothing the harness attached is replaced
     index = {id(x): i for i, x in enumerate(nodes)}
     edges = set(class_links)
     for s, held in slots.items():
@@ -363,6 +495,11 @@ def check_aliased(drv, n, kinds, links, root_ids, out, stats):
     cyclic = any(i in deps[i] for i in reach)
     roots = [nodes[i] for i in root_ids]
     case = {"family": "aliased", "classes": n, "wrappers": list(kinds), "links": [list(l) for l in links], "roots": list(root_ids)}
+    if siblings:
+        case["siblings"] = list(siblings)
+    if made not in (None, "meta"):
+        case["made"] = made
+    count_siblings(stats, siblings, made, "aliased-")
     out.note_case(case, len(links) >= 2)
 
     def count(name):
@@ -424,6 +561,213 @@ def check_aliased(drv, n, kinds, links, root_ids, out, stats):
             if late:
                 out.failures.append({"case": case, "what": f"C{u} is declared before C{late[0]}, which it depends on; order {names}", "finding": None})
                 break
+
+
+# ---------------------------------------------------------------------------------------------------------------------------
+# Classes out of the parser: the same acyclic class graphs written as a JSON schema document and parsed. A class used from several
+# places is written out in each place (the parser merges equal object schemas into one class); titles come from a small pool, so
+# different object schemas share a title and the parser renames the later ones; each class carries a marker property `m<i>` of its
+# own, which keeps different nodes different and lets the oracle tell which node a yielded class is without looking at its name.
+N_PARSED = {"quick": 250, "thorough": 6000}
+TITLE_POOL = ["Item", "Node", "Thing"]
+MARKER = re.compile(r"^m(\d+)$")
+
+
+def json_sibling(kind):
+    return copy.deepcopy({"false": False, "true": True, "string": {"type": "string"}, "null": {"type": "null"},
+                          "array": {"type": "array", "items": {"type": "string"}},
+                          "composition": {"anyOf": [{"type": "string"}, False]}}[kind])
+
+
+def json_wire(S, sub, position, key):
+    """Make object schema S depend on object schema `sub` through `position`."""
+    P = S["properties"]
+    if position == "property":
+        P[key] = sub
+    elif position == "items":
+        P[key] = {"type": "array", "items": sub}
+    elif position == "tuple-items":
+        P[key] = {"type": "array", "items": [{}, sub]}
+    elif position == "additionalItems":
+        P[key] = {"type": "array", "items": [{}], "additionalItems": sub}
+    elif position == "contains":
+        P[key] = {"contains": sub}
+    elif position == "patternProperties":
+        S.setdefault("patternProperties", {})["^" + key] = sub
+    elif position == "additionalProperties":
+        if "additionalProperties" not in S:
+            S["additionalProperties"] = sub
+        else:
+            P[key] = {"additionalProperties": sub}
+    elif position == "propertyNames":
+        P[key] = {"propertyNames": sub}
+    elif position == "dependencies":
+        S.setdefault("dependencies", {}).update({key: sub, key + "n": ["x"]})
+    elif position in ("anyOf", "oneOf"):
+        P[key] = {position: [sub, {"type": "string"}] if position == "anyOf" else [{"type": "integer"}, sub]}
+    elif position == "allOf":
+        P[key] = {"allOf": [sub]}
+    elif position == "not":
+        P[key] = {"not": sub}
+    else:
+        P[key] = {"type": "array", "items": {"anyOf": [{"properties": {"z": {"not": {"type": "array", "items": [sub]}}}}, {"type": "integer"}]}}
+
+
+def json_siblings(schema, kind, where):
+    """The JSON counterpart of add_siblings: sibling sub-schemas in front of / behind the entries of every dict- or list-valued
+    schema keyword in the document."""
+    if not isinstance(schema, dict):
+        return
+    for name in ("properties", "patternProperties", "dependencies", "definitions"):
+        d = schema.get(name)
+        if isinstance(d, dict):
+            for v in list(d.values()):
+                json_siblings(v, kind, where)
+            if name != "definitions":
+                prefix = "^" if name == "patternProperties" else ""
+                _around_dict(d, kind, where, lambda e: json_sibling(kind), prefix)
+    for name in ("items", "anyOf", "oneOf", "allOf"):
+        v = schema.get(name)
+        if isinstance(v, list):
+            for x in v:
+                json_siblings(x, kind, where)
+            if where in ("before", "around"):
+                v.insert(0, json_sibling(kind))
+            if where in ("after", "around"):
+                v.append(json_sibling(kind))
+        else:
+            json_siblings(v, kind, where)
+    for name in ("additionalItems", "contains", "additionalProperties", "propertyNames", "not"):
+        json_siblings(schema.get(name), kind, where)
+
+
+def guarded(fn):
+    """Run a library call under the watchdog."""
+    old = signal.signal(signal.SIGALRM, _alarm)
+    signal.alarm(5)
+    try:
+        return {"r": "ok", "value": fn()}
+    except Timeout:
+        return {"r": "timeout"}
+    except RecursionError:
+        return {"r": "recursion"}
+    except Exception as exc:  # noqa: BLE001
+        return {"r": "exc:" + type(exc).__name__}
+    finally:
+        signal.alarm(0)
+        signal.signal(signal.SIGALRM, old)
+
+
+def check_parsed(drv, n, titles, edges, root_ids, out, stats, siblings=None):
+    """Nodes 0..n-1 are object schemas titled titles[i]; an edge [u, v, position] with u < v puts schema v below schema u; the first
+    root is the document, further roots are its `definitions`."""
+    def count(name):
+        stats[name] = stats.get(name, 0) + 1
+
+    def node(i):
+        S = {"type": "object", "title": titles[i], "properties": {f"m{i}": {"type": "string"}}}
+        for k, (u, v, pos) in enumerate(edges):
+            if u == i:
+                json_wire(S, node(v), pos, f"e{k}")
+        return S
+    document = node(root_ids[0])
+    if len(root_ids) > 1:
+        document["definitions"] = {f"r{j}": node(r) for j, r in enumerate(root_ids[1:])}
+    if siblings:
+        json_siblings(document, siblings[0], siblings[1])
+    case = {"family": "parsed", "classes": n, "titles": list(titles), "edges": [list(e) for e in edges], "roots": list(root_ids)}
+    if siblings:
+        case["siblings"] = list(siblings)
+    out.note_case(case, len(edges) >= 2)
+    count("parsed-graphs")
+    count_siblings(stats, siblings, None, "parsed-")
+    adj = {i: sorted({v for (u, v, _) in edges if u == i}) for i in range(n)}
+
+    def below(i):
+        seen, st = set(), list(adj[i])
+        while st:
+            x = st.pop()
+            if x not in seen:
+                seen.add(x)
+                st.extend(adj[x])
+        return seen
+    reach = set(root_ids)
+    for r in root_ids:
+        reach |= below(r)
+    if len({titles[i] for i in reach}) < len(reach):
+        count("parsed-reachable-classes-sharing-a-title")
+    if any(sum(1 for (u, v, _) in edges if v == i and u in reach) + (i in root_ids) >= 2 for i in reach):
+        count("parsed-class-written-out-in-several-places")
+    parsed = guarded(lambda: parse(document))
+    if parsed["r"] != "ok":
+        count("parsed-not-an-input:parse-" + parsed["r"])          # the parser is other properties' business
+        return
+    roots = [r for r in parsed["value"] if isinstance(r, Element)]
+    # what was built, by the independent walker; the orderer's assumption (different classes, different names) is checked, not assumed
+    found = {}
+    for x in roots + [c for r in roots for c in own_children(r)]:
+        if isinstance(x, ObjectMeta):
+            found.setdefault(id(x), x)
+    marks = {}
+    for key, cls in found.items():
+        ms = [int(MARKER.match(k).group(1)) for k in cls.properties if MARKER.match(k)]
+        marks[key] = ms[0] if len(ms) == 1 else None
+    names = [c.__name__ for c in found.values()]
+    if len(set(names)) != len(names) or None in marks.values() or sorted(marks.values()) != sorted(reach):
+        count("parsed-not-an-input:classes-built-are-not-the-graph-written")
+        return
+    if any("_" in nm for nm in names):
+        count("parsed-with-a-class-renamed-by-the-parser")
+    objs = []
+    real = run_orderer(roots, objs)
+    by_name = {c.__name__: marks[id(c)] for c in found.values()}
+    try:
+        order = [c.__name__ for c in get_object_classes(*roots)]
+    except Exception:  # noqa: BLE001
+        order = [c.__name__ for c in roots if isinstance(c, ObjectMeta)]
+    model_edges = [[c.__name__, direct_class_children(c)] for c in found.values()]
+    rep = drv.ask({"op": "order_graph", "order": order, "edges": model_edges})
+    if "error" not in rep:
+        out.traces_validated += 1
+        if rep != real:
+            out.disagreements.append({"what": "declaration order (parsed document)", "impl": real, "model": rep, **case})
+    if real["r"] != "ok":
+        what = "acyclic graph refused as unresolvable" if real["r"] == "unresolvable" else f"orderer ended with {real['r']}"
+        out.failures.append({"case": case, "what": what + f" (classes {sorted(names)})", "finding": None})
+        return
+    got = [marks.get(id(c)) for c in objs]
+    shown = [f"{c.__name__}=node{marks.get(id(c))}" for c in objs]
+    if len(got) != len(set(got)) or len(real["order"]) != len(set(real["order"])):
+        out.failures.append({"case": case, "what": f"a class is yielded twice: {shown}", "finding": None})
+    elif set(got) != reach:
+        missing = sorted(nm for nm, i in by_name.items() if i not in got)
+        out.failures.append({"case": case, "what": f"yielded {shown}; reachable classes never yielded: {missing}", "finding": None})
+    else:
+        pos = {i: k for k, i in enumerate(got)}
+        for (u, v, _) in edges:
+            if u in reach and pos[v] > pos[u]:
+                out.failures.append({"case": case, "what": f"node {u} is declared before node {v}, which it depends on: {shown}", "finding": None})
+                break
+
+
+def random_parsed(rng):
+    n = rng.randint(1, 6)
+    edges = []
+    for _ in range(rng.randint(0, min(2 * n, 8))):
+        u, v = rng.randrange(n), rng.randrange(n)
+        if u == v:
+            continue
+        u, v = min(u, v), max(u, v)
+        if (u, v) not in [(a, b) for a, b, _ in edges]:
+            edges.append((u, v, rng.choice(POSITIONS)))
+    style = rng.randrange(3)                                   # all titles different / a small pool / one title for all
+    titles = [f"K{i}" if style == 0 else (rng.choice(TITLE_POOL) if style == 1 else "Item") for i in range(n)]
+    roots = rng.sample(range(n), rng.choice([1, 1, 2, min(3, n)]) if n > 1 else 1)
+    return n, titles, edges, roots
+
+
+def random_siblings(rng, p):
+    return [rng.choice(SIBLING_KINDS), rng.choice(SIBLING_WHERE)] if rng.random() < p else None
 
 
 def pick_position(rng, kinds, n, s, used):
@@ -522,6 +866,12 @@ def run(ctx, scale=1.0):
                 "anyOf / oneOf / allOf / not) as nodes of their own, 1-14 links between any two nodes (one instance referred to from several "
                 "places, reference loops with and without a class on them; a third loop-free, a third arbitrary, a third with loops among the "
                 "non-object elements only), 1-3 roots of either sort, and the fixed shapes with every class behind one shared element; "
+                "in ~30% of the graphs of either family class-free sibling sub-schemas (false / true / string / null / array / composition) "
+                "before / after / around everything every element holds, and in ~30% classes named after creation (class statement in a "
+                "factory, or metaclass call under a common name, then __name__ assigned); fixed shapes x sibling kind x side; "
+                "parsed documents: acyclic graphs on 1-6 object schemas with 0-8 edges in any of the 14 positions written as JSON (a shared "
+                "class written out at every use), titles all different / from a pool of 3 / all the same, 1-3 roots (document + definitions), "
+                "~40% with sibling sub-schemas, parsed by the real parser, classes identified by a marker property; "
                 "a case is one graph; non-trivial = at least 2 edges; distinct by SHA-256")
     stats = {}
     drv = core.Driver()
@@ -533,7 +883,8 @@ def run(ctx, scale=1.0):
             roots = rng.sample(range(n), rng.choice([1, 1, 2, min(3, n)]) if n > 1 else 1)
             for p in positions:
                 stats["pos-" + p] = stats.get("pos-" + p, 0) + 1
-            check_graph(drv, n, edges, positions, roots, out, stats, rng)
+            check_graph(drv, n, edges, positions, roots, out, stats, rng, siblings=random_siblings(rng, 0.3),
+                        made=rng.choice(MADE) if rng.random() < 0.3 else None)
         # fixed shapes: chain, diamond, shared leaf, self cycle, mutual cycle below an acyclic root, long cycle
         shapes = [
             (4, [(0, 1), (1, 2), (2, 3)], [0]), (4, [(0, 1), (0, 2), (1, 3), (2, 3)], [0]), (3, [(0, 2), (1, 2)], [0, 1]),
@@ -543,6 +894,15 @@ def run(ctx, scale=1.0):
         for n, edges, roots in shapes:
             for pos in POSITIONS:
                 check_graph(drv, n, edges, [pos] * len(edges), roots, out, stats, rng)
+        # the fixed shapes with every kind of sibling sub-schema on every side of the dependencies, and with classes of every making
+        for n, edges, roots in shapes:
+            for kind in SIBLING_KINDS:
+                for where in SIBLING_WHERE:
+                    check_graph(drv, n, edges, [rng.choice(POSITIONS) for _ in edges], roots, out, stats, rng, siblings=[kind, where],
+                                made=rng.choice(MADE))
+            for made in MADE[1:]:
+                for pos in rng.sample(POSITIONS, 4):
+                    check_graph(drv, n, edges, [pos] * len(edges), roots, out, stats, rng, made=made)
         # two differently named classes with identical bodies, each the only way to a class of its own
         for pos in POSITIONS:
             check_graph(drv, 5, [(0, 1), (0, 2), (1, 3), (2, 4)], ["property", "property", "plain:" + pos, "plain:" + pos], [0], out, stats, rng)
@@ -551,7 +911,8 @@ def run(ctx, scale=1.0):
         # aliased element graphs (non-object elements shared between referrers and on reference loops)
         for i in range(int(N_ALIASED[ctx["tier"]] * scale)):
             n, kinds, links, roots = random_aliased(rng, i % 3)
-            check_aliased(drv, n, kinds, links, roots, out, stats)
+            check_aliased(drv, n, kinds, links, roots, out, stats, siblings=random_siblings(rng, 0.3),
+                          made=rng.choice(MADE) if rng.random() < 0.3 else None)
         # the fixed shapes again, every dependency on a class passing through one shared element in front of it
         for n, edges, roots in shapes:
             if not edges:
@@ -560,6 +921,16 @@ def run(ctx, scale=1.0):
                 for _ in range(2):
                     kinds, links = aliased_version(rng, n, edges, kind)
                     check_aliased(drv, n, kinds, links, roots, out, stats)
+        # classes out of the parser: documents with colliding titles, shared sub-schemas, sibling sub-schemas
+        for i in range(int(N_PARSED[ctx["tier"]] * scale)):
+            n, titles, edges, roots = random_parsed(rng)
+            check_parsed(drv, n, titles, edges, roots, out, stats, siblings=random_siblings(rng, 0.4))
+        for n, edges, roots in shapes:
+            if any(u >= v for (u, v) in edges):
+                continue
+            for titles in ([f"K{i}" for i in range(n)], ["Item"] * n):
+                for siblings in [None] + [[kind, "around"] for kind in SIBLING_KINDS]:
+                    check_parsed(drv, n, titles, [(u, v, rng.choice(POSITIONS)) for (u, v) in edges], roots, out, stats, siblings=siblings)
         if ctx["tier"] == "thorough":
             import itertools
             for n in (1, 2, 3):
@@ -586,11 +957,17 @@ def _replay_case(case):
     drv = core.Driver()
     try:
         if case.get("family") == "aliased":
-            check_aliased(drv, case["classes"], case["wrappers"], [tuple(l) for l in case["links"]], case["roots"], out, stats)
+            check_aliased(drv, case["classes"], case["wrappers"], [tuple(l) for l in case["links"]], case["roots"], out, stats,
+                          siblings=case.get("siblings"), made=case.get("made"))
+            return out
+        if case.get("family") == "parsed":
+            check_parsed(drv, case["classes"], case["titles"], [tuple(e) for e in case["edges"]], case["roots"], out, stats,
+                         siblings=case.get("siblings"))
             return out
         edges = [(u, v) for u, v, _ in case["edges"]]
         positions = [p for _, _, p in case["edges"]]
-        check_graph(drv, case["classes"], edges, positions, case["roots"], out, stats, random.Random(0))
+        check_graph(drv, case["classes"], edges, positions, case["roots"], out, stats, random.Random(0),
+                    siblings=case.get("siblings"), made=case.get("made"))
     finally:
         drv.close()
     return out
